@@ -1302,9 +1302,9 @@ func (l *Loop) decode(d *decoder) {
 	}
 	l.vertices = make([]Point, nvertices)
 	for i := range l.vertices {
-		l.vertices[i].X = d.readFloat64()
-		l.vertices[i].Y = d.readFloat64()
-		l.vertices[i].Z = d.readFloat64()
+		l.vertices[i].X = d.readPointCoord()
+		l.vertices[i].Y = d.readPointCoord()
+		l.vertices[i].Z = d.readPointCoord()
 	}
 	l.index = NewShapeIndex()
 	l.originInside = d.readBool()
